@@ -158,6 +158,12 @@ def features():
     ]
     t['net/client']['packets'] += [{'family': 'Talk', 'action': 'Init', 'body': [F('p', 'Pair'), F('msg', 'string')]}]
     t['net/server']['packets'] += [{'family': 'Talk', 'action': 'Init', 'body': [CH(F('who', 'string'), BR, F('msg', 'string'))]}]
+    # one enum used from its own and from sibling directories, each with another underlying type: whichever file the directory walk
+    # reaches first, every use keeps its own width
+    t['pub']['enums'] += [{'name': 'Tone', 'type': 'char', 'values': [('Low', '1'), ('High', '2')]}]
+    t['pub']['structs'] += [{'name': 'PubTone', 'body': [F('tone', 'Tone'), F('t', 'char')]}]
+    t['map']['structs'] += [{'name': 'MapTone', 'body': [F('tone', 'Tone:short'), F('t', 'char')]}]
+    t['net/server']['structs'] += [{'name': 'SrvTone', 'body': [A('tones', 'Tone:three', length='2'), F('t', 'char')]}]
     return t
 
 
@@ -211,7 +217,15 @@ def literals():
          'body': [dict(F('a', 'char'), comment='ends with a backslash \\'), dict(F('b', 'short'), comment='escapes: \\x41 \\N{DASH} \\u00e9 \\1 \\'),
                   dict(A('cs', 'char', length='2'), comment='"""'), dict(L('n', 'char'), comment="it's <b>bold</b> & more"), dict(F('t', 'string', length='n'), comment='line one\n  line "two"\n""'),
                   F('k', 'LitKind'), SW('k', dict(CASE('A', F('z', 'char')), comment='case "A" \\'))]},
+        # hardcoded text outside ASCII: a y-diaeresis (the break byte in windows-1252) in a struct that has no chunked section of its own but is
+        # serialized inside another struct's chunked section (sanitised there, raw when serialized on its own), and a character outside the
+        # Basic Multilingual Plane (one character, one replacement byte)
+        {'name': 'HardInner', 'body': [F(None, 'string', 'a\u00ffb', length='3'), F('tag', 'string', '\u00ff\u00e9', length='2'), F('v', 'char')]},
+        {'name': 'HardOuter', 'body': [CH(F('inner', 'HardInner'), BR, F(None, 'string', '\u00ffz'), BR, F('t', 'char'))]},
+        {'name': 'Astral', 'body': [F(None, 'string', '\U0001f600', length='1'), F(None, 'string', 'x\U0001f600y'), F('t', 'char')]},
+        {'name': 'AstralDummy', 'body': [D('string', '\U0001f600')]},
     ]
+    t['']['structs'][-4]['comment'] = 'caf\u00e9 \u2014 na\u00efve \u00ff \U0001f600'      # documentation text outside ASCII
     t['']['enums'][-1]['comment'] = 'kinds """ of \\things"'
     t['']['enums'][-1]['value_comments'] = {'A': 'first "', 'B': 'second \\'}
     t['net/client']['packets'] += [{'family': 'Talk', 'action': 'Init', 'comment': 'packet "doc" \\N', 'body': [F('d', 'Documented')]}]
